@@ -82,7 +82,14 @@ def correspondence(ctx):
         for prof, rule in (('um', 'width'), ('um', 'case'), ('um', 'dir'), ('op', 'addmap'), ('nick', 'addmap')):
             cases.append(f'rules|{prof}|{rule}|{h}')
         cases.append(f'allows.ff|{h}')
-    cases += fuzz_cases(ctx, set(range(12)))      # coverage-guided search of the tree under check (only when the source changed / thorough)
+    for s_ in product_strings(ctx, extra_long=False):
+        h = hexs(s_)
+        for prof, rule in (('um', 'width'), ('um', 'case'), ('um', 'dir'), ('op', 'addmap'), ('nick', 'addmap')):
+            cases.append(f'rules|{prof}|{rule}|{h}')
+        if len(s_) % 3 == 0 or len(s_) > 60000:
+            cases.append(f'prof|nick|enforce|f|b|{h}|')
+            cases.append(f'prof|um|enforce|f|b|{h}|')
+    cases += fuzz_cases(ctx, set(range(13)))      # coverage-guided search of the tree under check (only when the source changed / thorough)
     res = run_cases(cases, ctx.work)
 
     def nontrivial(case, impl):
